@@ -4,11 +4,12 @@ import RV.Drive.Mmae
 import RV.Drive.Angles
 import RV.Drive.Visibility
 import RV.Drive.Frames
+import RV.Drive.Time
 namespace RV.Drive
 open RV
 
 def handlers : List (String → Option (P String)) :=
-  [RV.Drive.Decisions.handle, RV.Drive.Detectors.handle, RV.Drive.Mmae.handle, RV.Drive.Angles.handle, RV.Drive.Visibility.handle, RV.Drive.Frames.handle]
+  [RV.Drive.Decisions.handle, RV.Drive.Detectors.handle, RV.Drive.Mmae.handle, RV.Drive.Angles.handle, RV.Drive.Visibility.handle, RV.Drive.Frames.handle, RV.Drive.Time.handle]
 
 def step (line : String) : String :=
   match tokens line with
